@@ -400,6 +400,25 @@ def chunks (rs : Nat) : Nat → Bytes → Option (List Bytes)
     if buf.length > rs then (chunks rs fuel (buf.drop rs)).map (buf.take rs :: ·)
     else some [buf]
 
+/-- the same loop when `self.recordSize` (a property, re-read at every iteration) changes between
+    iterations: an application may assign `conn.recordSize` while a `writeAsync` generator is
+    suspended on a would-block.  `rs i` = the value in force when record `i` of this write is cut
+    (condition and both slices of one iteration see the same value: nothing yields between them). -/
+def chunksVar (rs : Nat → Nat) : Nat → Nat → Bytes → Option (List Bytes)
+  | i, 0, buf => if buf.length > rs i then none else some [buf]
+  | i, fuel + 1, buf =>
+    if buf.length > rs i then (chunksVar rs (i + 1) fuel (buf.drop (rs i))).map (buf.take (rs i) :: ·)
+    else some [buf]
+
+/-- `_sendMsg` with a record size that varies per record of the write (record 0 of a split write
+    is the single first byte) -/
+def fragmentsVar (split : Bool) (rs : Nat → Nat) (data : Bytes) : Option (List Bytes) :=
+  if split then
+    let rest := data.drop 1
+    if rest.length == 0 then some [data.take 1]
+    else (chunksVar rs 1 rest.length rest).map (data.take 1 :: ·)
+  else chunksVar rs 0 data.length data
+
 /-- `recordSize = min(_user_record_limit, _send_record_limit)` -/
 def recordSize (userLimit sendLimit : Nat) : Nat := min userLimit sendLimit
 
@@ -487,9 +506,16 @@ structure Endpoint (W R : Type) where
   closed : Bool
   /-- `session.resumable` -/
   resumable : Bool
-  /-- fragmentation parameters of `_sendMsg` -/
+  /-- fragmentation parameters of `_sendMsg`: `recordSize` is the effective value
+      `min(_user_record_limit, _send_record_limit)` -/
   split : Bool
   recordSize : Nat
+  /-- `_send_record_limit` (negotiated) -/
+  sendLimit : Nat
+  /-- `version > (3, 3) and _middlebox_compat_mode`: unprotected ChangeCipherSpec records are
+      dropped silently.  True during a TLS 1.3 handshake; both roles clear `_middlebox_compat_mode`
+      when their handshake ends, so it is False for every established connection. -/
+  ccsTolerated : Bool := false
 
 /-- result of one `readAsync(max, min)` run to completion (or until it would block) -/
 inductive ReadOut
@@ -568,6 +594,14 @@ def epReadLoop {W R} (prot : W → UInt8 → Bytes → Option (W × Rec))
           -- empty non-application record / unknown content type
           let x := epFatal prot { e with rd := rd' } Err.unexpected_message.alert
           (x.1, inc', x.2, .localAlert Err.unexpected_message.alert)
+        else if t == 20 then
+          -- ChangeCipherSpec: dropped only in TLS 1.3 middlebox-compatibility mode (and only the
+          -- one-byte value 1); otherwise it is a record of an unexpected type
+          if e.ccsTolerated && d == [1] then epReadLoop prot unprot max min tryOnce { e with rd := rd' } inc'
+          else if e.ccsTolerated && d.head? == some 1 then ({ e with rd := rd' }, inc', [], .unmodelled)
+          else
+            let x := epFatal prot { e with rd := rd' } Err.unexpected_message.alert
+            (x.1, inc', x.2, .localAlert Err.unexpected_message.alert)
         else ({ e with rd := rd' }, inc', [], .unmodelled)
     else epReturn max e (r :: inc')
 
@@ -588,6 +622,9 @@ structure Conn (Kab Kba : Codec) where
 inductive Op
   | writeA (data : Bytes)
   | writeB (data : Bytes)
+  /-- the application assigns `conn.recordSize = n` between operations -/
+  | setSizeA (n : Nat)
+  | setSizeB (n : Nat)
   | readA (max : Option Nat) (min : Nat)
   | readB (max : Option Nat) (min : Nat)
 
@@ -611,6 +648,8 @@ def step {Kab Kba : Codec} (c : Conn Kab Kba) : Op → Conn Kab Kba
     { c with b := r.1, ba := c.ba ++ r.2.1,
              writtenB := if r.2.2 = .done then c.writtenB ++ d else c.writtenB,
              failed := c.failed || r.2.2 != .done }
+  | .setSizeA n => { c with a := { c.a with recordSize := recordSize n c.a.sendLimit } }
+  | .setSizeB n => { c with b := { c.b with recordSize := recordSize n c.b.sendLimit } }
   | .readA mx mn =>
     let r := epReadLoop Kab.prot Kba.unprot mx mn true c.a c.ba
     { c with a := r.1, ba := r.2.1, ab := c.ab ++ r.2.2.1,
